@@ -63,6 +63,8 @@ def wake(s: Session, version: str, echo_of: tuple | None = None, dest: str = "sl
     if echo_of is not None and echo_of[2] == 1:
         # the destination echoes an older command for the same child and value type (ack flag set)
         traffic.insert(1, f"{echo_of[0]};{echo_of[1]};1;1;{echo_of[4]};older")
+        # ... and asks for the value of exactly that child and value type (answered with the STORED value: C06)
+        traffic.insert(2, f"{echo_of[0]};{echo_of[1]};2;0;{echo_of[4]};")
     if dest == "sleeping-then-repeater":
         traffic = [f"{NODE};255;0;0;18;{version}", f"{NODE};3;0;0;3;"] + traffic
     for line in traffic:
